@@ -8,7 +8,14 @@ the model's trace AND with the history-level specification [spec_trace] (answers
 computations under the provenance status), and judges the property on observations
 alone against a twin copy of the package run from empty caches.  A sample of final
 states is recomputed in brand-new interpreters; 2-3 real threads are released together
-on first calls of the memoised getters."""
+on first calls of the memoised getters.
+
+Histories contain ABORTED computations: the ops CSA / CRA / COA / NVA are the getters
+called with a fault armed in the scripted terminal (KeyboardInterrupt while the reply is
+awaited, OSError from writing the request, termios.error from tcsetattr — all raised
+from inside the real `query_terminal`).  A quarter of the generated histories is built
+around the pattern [successful get; resize in cells with no pixel size from the ioctl;
+aborted get; get again at the same size]."""
 from __future__ import annotations
 
 import copy
@@ -61,6 +68,64 @@ def gen_env(rng):
     }
 
 
+FAULTS = ["kbd", "kbd", "oserr", "termios"]
+ABORTS = {"CS": "CSA", "CR": "CRA", "CO": "COA", "NV": "NVA"}
+
+
+def arm(rng, op):
+    """the getter op called with a fault armed"""
+    return [ABORTS[op[0]]] + list(op[1:]) + [rng.choice(FAULTS)]
+
+
+def gen_abort_case(rng, maxlen=14):
+    """[successful get; resize in cells where the ioctl reports no pixel size; ABORTED get;
+    get again at the same size], embedded in a random history"""
+    env = gen_env(rng)
+    env["tty"] = 1
+    zero_px = rng.random() < 0.3          # the ioctl works but reports 0 pixels after the resize
+    env["io"] = 1 if zero_px else int(rng.random() < 0.15)
+    if rng.random() < 0.85 and not (env["xc"] or env["xa"]):
+        env[rng.choice(["xc", "xa"])] = 1
+    a = gen_size(rng)
+    while True:
+        bsz = gen_size(rng)
+        if (bsz[0], bsz[1]) != (a[0], a[1]):
+            break
+    if zero_px:
+        bsz[rng.choice([2, 3])] = 0
+        if rng.random() < 0.5:
+            bsz[2] = bsz[3] = 0
+    pool = [a, bsz] + [gen_size(rng) for _ in range(rng.randint(0, 2))]
+    dyn = rng.random() < 0.3
+    get, geta = (["CR"], ["CRA"]) if dyn else (["CS"], ["CSA"])
+    pre = [["SR", "D"]] if dyn else []
+    core_ops = [get, ["R"] + bsz, geta + [rng.choice(FAULTS)], get]
+    if rng.random() < 0.3:                # back to the first size: the same game again
+        core_ops += [["R"] + a, geta + [rng.choice(FAULTS)], get]
+
+    def filler(n):
+        out = []
+        for _ in range(n):
+            u = rng.random()
+            if u < 0.12:
+                out.append(["R"] + list(rng.choice(pool)))
+            elif u < 0.30:
+                out.append([rng.choice(["ES", "DS", "EQ", "DQ", "EQ"])])
+            elif u < 0.36:
+                out.append(["SR", rng.choice(["F", "D", [3, 4]])])
+            else:
+                g = rng.choice(["CS", "CS", "CR", "CO", "NV", "K", "TS"])
+                o = [g, rng.randrange(3)] if g == "CO" else [g]
+                out.append(arm(rng, o) if g in ABORTS and rng.random() < 0.35 else o)
+        return out
+
+    room = max(0, maxlen - len(core_ops) - len(pre))
+    n1 = rng.randint(0, min(3, room))
+    mid = filler(1) if rng.random() < 0.15 else []   # something between the abort and the retry
+    ops = filler(n1) + pre + core_ops[:3] + mid + core_ops[3:] + filler(rng.randint(0, max(0, room - n1)))
+    return {"env": env, "t0": a, "ops": ops}
+
+
 def gen_case(rng, maxlen=20):
     env = gen_env(rng)
     pool = [gen_size(rng) for _ in range(rng.randint(1, 4))]
@@ -86,7 +151,8 @@ def gen_case(rng, maxlen=20):
             ops.append(["SR", m])
         else:
             g = rng.choices(["CS", "CR", "CO", "NV", "K", "TS"], w)[0]
-            ops.append([g, rng.randrange(3)] if g == "CO" else [g])
+            o = [g, rng.randrange(3)] if g == "CO" else [g]
+            ops.append(arm(rng, o) if g in ABORTS and rng.random() < 0.14 else o)
     return {"env": env, "t0": list(rng.choice(pool)), "ops": ops}
 
 
@@ -123,7 +189,30 @@ CORPUS = [
                                                  ["CO", 1], ["R", 80, 24, 79, 485], ["ES"], ["CS"]]},
     # no terminal at all
     {"env": dict(E0, tty=0), "t0": [80, 24, 800, 480], "ops": [["CS"], ["SR", "D"], ["CR"], ["NV"], ["K"], ["CO", 2], ["TS"]]},
+    # ABORTED computations.  compute; resize in cells (no pixel size from the ioctl: the terminal is queried);
+    # the query is interrupted; ask again at the same size: the retry computes afresh; an armed call answered
+    # from the cache returns normally
+    {"env": E1, "t0": [80, 24, 800, 480],
+     "ops": [["CS"], ["R", 100, 30, 900, 750], ["CSA", "kbd"], ["CS"], ["CSA", "termios"], ["R", 80, 24, 800, 480],
+             ["CSA", "oserr"], ["CS"], ["CS"]]},
+    # ... the ioctl works but reports 0 pixels after the resize
+    {"env": E0, "t0": [80, 24, 800, 480], "ops": [["CS"], ["R", 100, 30, 0, 0], ["CSA", "kbd"], ["CS"], ["CSA", "kbd"]]},
+    {"env": dict(E0, xc=0), "t0": [80, 24, 800, 480],
+     "ops": [["CS"], ["R", 100, 30, 0, 750], ["CSA", "termios"], ["CS"], ["R", 80, 24, 800, 480], ["CSA", "kbd"], ["CS"]]},
+    # ... through the DYNAMIC cell ratio
+    {"env": E1, "t0": [80, 24, 800, 480],
+     "ops": [["SR", "D"], ["CR"], ["R", 100, 30, 900, 750], ["CRA", "kbd"], ["CR"], ["SR", [3, 4]], ["CRA", "kbd"], ["CR"]]},
+    # the memoised getters: a raising body stores nothing; a hit returns normally; disabled queries never wait
+    {"env": E0, "t0": [80, 24, 800, 480],
+     "ops": [["NVA", "kbd"], ["NV"], ["COA", 2, "oserr"], ["CO", 2], ["COA", 2, "kbd"], ["DQ"], ["NVA", "termios"],
+             ["COA", 1, "kbd"], ["EQ"], ["NVA", "termios"], ["NV"], ["K"], ["COA", 1, "kbd"], ["CO", 1]]},
+    {"env": E1, "t0": [80, 24, 800, 480],
+     "ops": [["DQ"], ["CSA", "kbd"], ["COA", 1, "kbd"], ["EQ"], ["CSA", "kbd"], ["CS"], ["COA", 1, "oserr"], ["CO", 1]]},
+    {"env": dict(E0, tty=0), "t0": [80, 24, 800, 480], "ops": [["CSA", "kbd"], ["NVA", "kbd"], ["COA", 0, "oserr"], ["CRA", "kbd"]]},
 ]
+
+
+ABORTED = {v: k for k, v in ABORTS.items()}
 
 
 def tsize(t):
@@ -148,6 +237,10 @@ def op_term(o):
                               "(RFloat %s %s)" % (core.z(m[0]), core.z(m[1])))
     if k == "CO":
         return "GetColors %d%%nat" % o[1]
+    if k == "COA":
+        return "GetColorsAbort %d%%nat" % o[1]
+    if k in ("CSA", "CRA", "NVA"):   # the kind of fault is below the model's grain
+        return {"CSA": "GetCellSizeAbort", "CRA": "GetCellRatioAbort", "NVA": "GetNameVersionAbort"}[k]
     return {"ES": "EnableSwap", "DS": "DisableSwap", "EQ": "EnableQueries", "DQ": "DisableQueries",
             "CS": "GetCellSize", "CR": "GetCellRatio", "NV": "GetNameVersion", "K": "IsOnKitty", "TS": "GetTsc"}[k]
 
@@ -211,6 +304,11 @@ def describe(c):
             return "resize(%dx%d,%dx%dpx)" % tuple(o[1:5])
         if o[0] == "SR":
             return "set_cell_ratio(%s)" % ({"F": "FIXED", "D": "DYNAMIC"}.get(o[1]) if isinstance(o[1], str) else "%d/%d" % tuple(o[1]))
+        if o[0] in ("CSA", "CRA", "COA", "NVA"):
+            base = {"CSA": "get_cell_size", "CRA": "get_cell_ratio", "NVA": "get_terminal_name_version",
+                    "COA": "get_fg_bg_colors[%s]" % o[1]}[o[0]]
+            return base + "!" + {"kbd": "KeyboardInterrupt", "oserr": "OSError", "termios": "termios.error"}[o[-1]] \
+                + "-in-query"
         return {"ES": "enable_swap", "DS": "disable_swap", "EQ": "enable_queries", "DQ": "disable_queries",
                 "CS": "get_cell_size", "CR": "get_cell_ratio", "NV": "get_terminal_name_version",
                 "K": "_is_on_kitty", "TS": "size_cached_probe", "CO": "get_fg_bg_colors[%s]" % (o[1] if len(o) > 1 else 0)}[o[0]]
@@ -262,12 +360,14 @@ def run(ctx):
         cases = [ctx.replay["replay"]["case"]]
     else:
         n = 420 if ctx.quick else 6000
-        cases = copy.deepcopy(CORPUS) + [gen_case(rng, 20 if i % 4 else 8) for i in range(n)]
+        cases = copy.deepcopy(CORPUS) + [gen_abort_case(rng) if i % 4 == 1 else gen_case(rng, 20 if i % 4 else 8)
+                                         for i in range(n)]
     codes, side, errors, impl = evaluate(cases)
     mismatches, failures = [], []
     hist = {"ops_len": {}, "op_kinds": {}, "caps": {}, "side_condition_holds": sum(side),
             "side_condition_broken_on_purpose": len(cases) - sum(side), "none_cell_size_answers": 0,
-            "cache_hits": 0, "recomputations": 0}
+            "cache_hits": 0, "recomputations": 0, "armed_calls_raised": 0, "armed_calls_returned": 0,
+            "get_after_aborted_get_same_size": 0}
     distinct = set()
     for c, r in zip(cases, impl):
         L = len(c["ops"])
@@ -276,9 +376,19 @@ def run(ctx):
         key = "tty%d io%d xc%d xa%d" % (e["tty"], e["io"], e["xc"], e["xa"])
         hist["caps"][key] = hist["caps"].get(key, 0) + 1
         prev = 0
-        kinds = [o[0] for o in c["ops"]]
+        kinds = [ABORTED.get(o[0], o[0]) for o in c["ops"]]
+        pending_abort = False
         for o, row in zip(c["ops"], r["rows"]):
             hist["op_kinds"][o[0]] = hist["op_kinds"].get(o[0], 0) + 1
+            if o[0] in ABORTED:
+                hist["armed_calls_raised" if row["obs"] == [-1] else "armed_calls_returned"] += 1
+            if o[0] in ("CSA", "CRA") and row["obs"] == [-1]:
+                pending_abort = True
+            elif o[0] in ("CS", "CR") and pending_abort:
+                hist["get_after_aborted_get_same_size"] += 1
+                pending_abort = False
+            elif o[0] in ("R", "ES", "DS", "EQ"):
+                pending_abort = False
             if o[0] == "CS":
                 hist["none_cell_size_answers"] += row["obs"] == [0]
                 hist["cache_hits" if row["n"][0] == prev else "recomputations"] += 1
@@ -305,7 +415,7 @@ def run(ctx):
     extra = {}
     if not ctx.replay:
         # fresh computations in new interpreters
-        fcs = fresh_cases(cases, impl, 40 if ctx.quick else 400)
+        fcs = fresh_cases(cases, impl, 24 if ctx.quick else 400)
         fbad, ferr, fres = run_fresh(fcs)
         errors += ferr
         for idx, _ in fbad:
@@ -332,12 +442,14 @@ def run(ctx):
         "rule": "corpus + random histories (1-20 ops) over resize / swap toggles / query toggles / set_cell_ratio "
                 "(FIXED, DYNAMIC, floats incl. non-positive) / get_cell_size / get_cell_ratio / get_fg_bg_colors "
                 "(three argument tuples) / get_terminal_name_version / TextImage._is_on_kitty / a terminal_size_cached "
-                "probe, on scripted terminals (ioctl pixel size or not, XTWINOPS cell / text-area replies or not, "
+                "probe / the same getters with a fault armed inside query_terminal (KeyboardInterrupt, OSError, "
+                "termios.error: ABORTED computations; every 4th history is built around [get; resize in cells without "
+                "ioctl pixel size; aborted get; get again]), on scripted terminals (ioctl pixel size or not, XTWINOPS cell / text-area replies or not, "
                 "XTVERSION or TERM_PROGRAM, colours or not, no tty).  After every op: return value + body counters; "
                 "for every getter additionally the value of a twin package copy run from empty caches.  "
                 "Non-trivial: a tty, >= 2 getter calls and >= 1 state change; distinct by full case hash.  "
                 "~15% of histories break the side condition on purpose (model compared, property not judged).",
-        "samples": [describe(c) for c in cases[:2] + cases[len(CORPUS):len(CORPUS) + 3]],
+        "samples": [describe(c) for c in cases[:2] + cases[11:12] + cases[len(CORPUS):len(CORPUS) + 3]],
         "histogram": hist,
         "mismatches": mismatches,
         "failures": failures,
@@ -348,11 +460,17 @@ def run(ctx):
             "terminal name/version, colours and capabilities do not change during a session (they are parameters of a history)",
             "the body of a memoised function is atomic with respect to its own lock and does not call the same memoised function",
             "AutoCellRatio.is_supported is sticky by documentation and modelled as such (outside the property)",
+            "aborted computations: the exception is raised inside query_terminal (request write, tcsetattr, or the wait "
+            "for the reply); an abort at other points (inside the ioctl, between Python statements by an asynchronous "
+            "signal) is not modelled",
         ],
         "trusted": [
             "scripted terminal in impl_c15.py (FIFO of replies; replaces get_terminal_size, fcntl.ioctl, termios.tc*attr, "
             "write_tty/read_tty, _tty_fd, TERM_PROGRAM*); query_terminal and everything above it is the real code",
-            "body executions are counted by a pass-through wrapper around utils.query_terminal and by ioctl calls",
+            "body executions are counted by a pass-through wrapper around utils.query_terminal and by ioctl calls; the "
+            "counters are put back when the call raises (they count COMPLETED computations)",
+            "fault injection: the scripted terminal raises KeyboardInterrupt from the timed read, OSError from the write, "
+            "termios.error from tcsetattr(TCSAFLUSH), once per armed call",
             "thread races use real threads (outcome is schedule-independent on correct code); CPython's RLock is trusted",
         ],
         "extra": extra,
